@@ -102,6 +102,11 @@ func (in *Interp) runRegion(fr *Frame, blk, prev, stop *ssa.BasicBlock, phisDone
 		if !phisDone {
 			if prev != nil && fr.info.backedge[[2]int{prev.Index, blk.Index}] {
 				fr.visits[blk]++
+				if in.cfg.Cut > 0 && fr.visits[blk] > in.cfg.Cut && in.repoFrame(fr) && len(in.guards) > 0 {
+					// stated bound: symbolic paths that go round this loop more often are assumed away
+					in.notes = appendNote(in.notes, fmt.Sprintf("loop in %s (block %d) cut after %d iterations on symbolic paths: longer paths are outside the claim", fr.fn.Name(), blk.Index, in.cfg.Cut))
+					panic(pathDead{"loop cut"})
+				}
 			} else {
 				fr.visits[blk] = 0
 			}
@@ -142,7 +147,7 @@ func (in *Interp) runRegion(fr *Frame, blk, prev, stop *ssa.BasicBlock, phisDone
 			if iv, ok := in.get(fr, t.X).(*IfaceV); ok && iv.typ != nil {
 				msg = showValue(in.ts, iv.val)
 			}
-			in.obligation("no-panic:explicit:"+shortSite(in.site(t)), "implicit", in.ts.False())
+			in.implicitFail("explicit:"+shortSite(in.site(t)), in.ts.False())
 			panic(pathDead{"explicit panic " + msg})
 		case *ssa.If:
 			c := in.term(fr, t.Cond)
@@ -157,6 +162,24 @@ func (in *Interp) runRegion(fr *Frame, blk, prev, stop *ssa.BasicBlock, phisDone
 			// pruning is needed for termination only where the branch decides about staying in a
 			// loop; elsewhere both arms are executed under their guard and merged.
 			ft, ff := true, true
+			if es, ok := fr.info.exitSucc[blk]; ok && in.cfg.Cut > 0 && in.repoFrame(fr) && fr.visits[fr.info.exitHeader[blk]] >= in.cfg.Cut-1 {
+				// stated bound: paths that stay in this loop any longer are outside the claim
+				in.notes = appendNote(in.notes, fmt.Sprintf("loop at %s cut after %d iterations: longer paths are assumed away (outside the claim)", shortSite(in.site(t)), in.cfg.Cut))
+				if es == 0 {
+					if !in.feasible(c) {
+						panic(pathDead{"loop cut: exit infeasible"})
+					}
+					in.assume(c)
+					prev, blk = blk, blk.Succs[0]
+				} else {
+					if !in.feasible(in.ts.Not(c)) {
+						panic(pathDead{"loop cut: exit infeasible"})
+					}
+					in.assume(in.ts.Not(c))
+					prev, blk = blk, blk.Succs[1]
+				}
+				continue
+			}
 			if (fr.info.prune[blk] && in.loopDepthVisits(fr, blk) >= in.cfg.PruneFrom) || in.pruneAll {
 				ft = in.feasible(c)
 				if ft {
@@ -224,6 +247,15 @@ func (in *Interp) runRegion(fr *Frame, blk, prev, stop *ssa.BasicBlock, phisDone
 				panic(unsupported{"defer inside a symbolic branch"})
 			}
 
+			// lazy pruning: if the arms cannot be merged (different references, error vs nil, ...)
+			// ask the solver whether both are feasible at all before giving up and forking
+			if resA.kind != rDead && resB.kind != rDead && in.armsClash(c, resA, resB, capA, orderA, mark) {
+				if !in.feasible(c) {
+					resA.kind = rDead
+				} else if !in.feasible(nc) {
+					resB.kind = rDead
+				}
+			}
 			switch {
 			case resA.kind == rDead && resB.kind == rDead:
 				panic(pathDead{"both arms dead"})
@@ -955,9 +987,17 @@ func (in *Interp) refEqual(a, b Value) *Term {
 	panic(unsupported{fmt.Sprintf("comparison of %T", a)})
 }
 
+func (in *Interp) repoFrame(fr *Frame) bool {
+	// loops of the harness itself are never cut
+	return !strings.Contains(fr.fn.Name(), "H_") && !strings.HasPrefix(fr.fn.Name(), "c1") && !strings.HasPrefix(fr.fn.Name(), "c0")
+}
+
 // loopDepthVisits: the largest back-edge count among loop headers currently being iterated
 // in this frame (a proxy for "this loop has gone round k times already").
 func (in *Interp) loopDepthVisits(fr *Frame, blk *ssa.BasicBlock) int {
+	if h, ok := fr.info.exitHeader[blk]; ok {
+		return fr.visits[h]
+	}
 	m := 0
 	for _, v := range fr.visits {
 		if v > m {
@@ -965,4 +1005,62 @@ func (in *Interp) loopDepthVisits(fr *Frame, blk *ssa.BasicBlock) int {
 		}
 	}
 	return m
+}
+
+func hasPoison(v Value) bool {
+	switch x := v.(type) {
+	case PoisonV:
+		return true
+	case *StructV:
+		for _, f := range x.fields {
+			if hasPoison(f) {
+				return true
+			}
+		}
+	case *ArrayV:
+		for _, f := range x.elems {
+			if hasPoison(f) {
+				return true
+			}
+		}
+	case TupleV:
+		for _, f := range x {
+			if hasPoison(f) {
+				return true
+			}
+		}
+	case *IfaceV:
+		return x.typ != nil && hasPoison(x.val)
+	}
+	return false
+}
+
+// armsClash: would merging the two arms produce a non-mergeable return value or memory cell?
+func (in *Interp) armsClash(c *Term, resA, resB regionResult, capA map[slotKey]slotChange, orderA []slotKey, mark int) bool {
+	if resA.kind == rReturned && resB.kind == rReturned {
+		for i := range resA.vals {
+			if i < len(resB.vals) && hasPoison(in.mergeValue(c, resA.vals[i], resB.vals[i], -2)) {
+				return true
+			}
+		}
+	}
+	capB, orderB := in.capture(mark)
+	for _, sk := range orderA {
+		b := sk.obj.slots[sk.slot]
+		if cb, ok := capB[sk]; ok {
+			b = cb.final
+		}
+		if hasPoison(in.mergeValue(c, capA[sk].final, b, -2)) {
+			return true
+		}
+	}
+	for _, sk := range orderB {
+		if _, ok := capA[sk]; ok {
+			continue
+		}
+		if hasPoison(in.mergeValue(c, capB[sk].orig, capB[sk].final, -2)) {
+			return true
+		}
+	}
+	return false
 }
